@@ -510,6 +510,19 @@ int main(int argc, char **argv) {
           countdown_timer_vars.items[i].last_time = strtoull(ops_tok[4], 0, 10);
           countdown_timer_vars.items[i].gpio_id = 200;
         }
+      } else if (!strcmp(op, "setdur") && ops_ntok == 5) { /* channel value duration published-remaining: the decision of
+                                                               supla_esp_gpio_relay_set_duration_timer, observed on the item table */
+        int c = atoi(ops_tok[1]);
+        if (c >= 0 && c < STATE_CFG_TIME2_COUNT) supla_esp_state.Time2Left[c] = (unsigned)strtoul(ops_tok[4], 0, 10);
+        supla_esp_gpio_relay_set_duration_timer(c, atoi(ops_tok[2]), atoi(ops_tok[3]), 0);
+        int found = 0;
+        for (int i = 0; i < RELAY_MAX_COUNT; i++)
+          if (countdown_timer_vars.items[i].channel_number == c && countdown_timer_vars.items[i].time_left_ms > 0) {
+            sdk_out("DUR %u 1 %d", countdown_timer_vars.items[i].time_left_ms, countdown_timer_vars.items[i].target_value[0]);
+            found = 1;
+          }
+        if (!found) sdk_out("DUR 0 0 -");
+        supla_esp_countdown_timer_disarm(c);
       } else if (!strcmp(op, "cdcb") && ops_ntok == 2) { /* callback at uptime ms */
         void *saved = countdown_timer_vars.finish_cb;
         supla_esp_countdown_set_finish_cb(cd_finish_probe);
